@@ -751,6 +751,8 @@ class PSBT(EmbitBase):
             r += ser_string(stream, compact.to_bytes(len(self.inputs)))
             r += ser_string(stream, b"\x05")
             r += ser_string(stream, compact.to_bytes(len(self.outputs)))
+        # version is written back whenever it was set explicitly (also version 0)
+        if self.version is not None:
             r += ser_string(stream, b"\xfb")
             r += ser_string(stream, self.version.to_bytes(4, "little"))
         # unknown
